@@ -436,6 +436,12 @@ func (g *bindGen) argFor(name string, allowBulk bool) any {
 		return s.Interface()
 	case form < 18 && allowBulk && t.Kind() != reflect.Slice:
 		n := 1 + r.intn(3)
+		if r.chance(1, 10) {
+			n = 0
+		}
+		if r.chance(1, 25) {
+			return reflect.Zero(reflect.SliceOf(reflect.PointerTo(t))).Interface() // a nil []*T
+		}
 		s := reflect.MakeSlice(reflect.SliceOf(reflect.PointerTo(t)), 0, n)
 		for i := 0; i < n; i++ {
 			if r.chance(1, 12) {
